@@ -286,3 +286,14 @@ CHECKS["C05"] = dict(
     assumptions=["file-system model with atomic namespace steps", "schedules in which BOTH operations are split (A1 B1 A2 B2) are not explored"],
     outside=["more than two concurrent operations", "writer/writer races", "multipart completion and copy as writers", "sidecar metadata store"],
 )
+
+CHECKS["C17"] = dict(
+    explanation="auth.IAMCache (real code: CreateAccount, GetUserAccount, UpdateUserAccount, DeleteUserAccount, icache set/get/update/Delete) over a "
+                "reference account store that may refuse updates, with an arbitrary non-decreasing clock: every history of up to 2 (3) admin calls on one "
+                "access key followed by a lookup after each call - the lookup returns exactly the store's account (all five attributes) or no-such-user.",
+    harnesses=[
+        dict(name="H17a-cache", pkgs=["./auth"], entry="auth.VfIAMCache", reach=["lookup-of-existing-account"]),
+    ],
+    assumptions=["time.Now = arbitrary non-decreasing seconds", "single gateway process, sequential calls"],
+    outside=["interleavings of a lookup (miss in flight) with delete/update (H17b: not built)", "the file-backed account store (iam_internal.go)", "other IAM back ends"],
+)
